@@ -68,6 +68,7 @@ type Client struct {
 
 	View  *View
 	OnMsg func(*RecvMsg)
+	own   map[uint32]proto.Message // requests whose answer will tell the client what it changed
 
 	mark int // index into Msgs: start of the current observation window
 }
@@ -156,6 +157,13 @@ func (c *Client) onMessage(raw []byte) {
 		c.w.sim.Logf("%s <%d rid=%d n=%d", c.Label, m.Type, m.ReqID, len(raw))
 	}
 	c.View.apply(m)
+	if m.ReqID != 0 && m.Type != 0 {
+		if req, ok := c.own[m.ReqID]; ok {
+			// the client learns the effect of its own request from the answer, in stream order
+			delete(c.own, m.ReqID)
+			c.View.applyOwn(req, []*RecvMsg{m}, m.ReqID)
+		}
+	}
 	if c.OnMsg != nil {
 		c.OnMsg(m)
 	}
@@ -278,6 +286,14 @@ func (c *Client) Send(m proto.Message) {
 		panic(err)
 	}
 	c.w.sim.Logf("%s >%d n=%d", c.Label, msgTypeOf(m), len(b))
+	if rid := requestID(m); rid != 0 {
+		if c.own == nil {
+			c.own = map[uint32]proto.Message{}
+		}
+		c.own[rid] = m
+	} else {
+		c.View.applyOwnUnanswered(m)
+	}
 	c.SendPayload(b)
 }
 
